@@ -443,7 +443,7 @@ def build(src):
             must_fire=["D3.temporary-map"]))
     for fn, member in [("option", "options_"), ("multi_option", "multi_options_"), ("toggle", "toggles_")]:
         u.add(F("group_" + fn, GRP, r"options::%s& group::%s\(const std::string& name,\s*const std::string& description\)" % (fn, fn),
-                "struct obase *group_%s(struct ogroup *self, const struct ostr *name, const struct ostr *description)" % fn, ["C13", "C15"], dflt="0", ret_ref=True,
+                "struct obase *group_%s(struct ogroup *self, const struct ostr *name, const struct ostr *description)" % fn, ["C13", "C15"], dflt="0",
                 rules=[Rule("D6.parser-ref", r"\bparser_\.has_option_with_name\(name\)", "parser_has_option_with_name(self->parser_, name)"),
                        Rule("D7.map-count", r"\b%s\.count\(name\)" % member, "omapk_count(&self->%s, name)" % member),
                        Rule("D7.map-emplace", r"(?:auto|__auto_type) res = %s\.emplace\(std::piecewise_construct, std::forward_as_tuple\(name\),\s*std::forward_as_tuple\(name, description\)\);" % member,
